@@ -4,6 +4,7 @@ import (
 	"context"
 	"encoding/json"
 	"fmt"
+	cid "github.com/ipfs/go-cid"
 	"sync"
 	"testing"
 	"time"
@@ -51,7 +52,7 @@ func genC09(rt *rapid.T) CaseC09 {
 	m := rapid.IntRange(2, 9).Draw(rt, "nacts")
 	for i := 0; i < m; i++ {
 		c.Acts = append(c.Acts, ActC09{
-			Kind: rapid.SampledFrom([]string{"write", "write", "replicate", "replicate", "load", "racewrite", "racewrite", "exchange2", "exchange2"}).Draw(rt, "kind"),
+			Kind: rapid.SampledFrom([]string{"write", "write", "replicate", "replicate", "load", "racewrite", "racewrite", "exchange2", "exchange2", "stall"}).Draw(rt, "kind"),
 			DB:   rapid.IntRange(0, n-1).Draw(rt, "db"),
 			N:    rapid.IntRange(1, 4).Draw(rt, "n"),
 		})
@@ -298,6 +299,121 @@ func execC09(c CaseC09) *Outcome {
 					return o
 				}
 				return fail("action %d: head exchanges for databases %d and %d delivered back to back: %v", ai, d, e, err)
+			}
+		case "stall":
+			// another database of the instance has more fetches in flight than a replicator runs at once, and none
+			// of them completes (blocks announced by a peer that is not serving them): entries handed to database d
+			// meanwhile, perfectly fetchable, must still arrive
+			e := (d + 1 + a.N) % n
+			if e == d {
+				e = (d + 1) % n
+			}
+			other = e
+			for q := 0; q < 34+a.N; q++ {
+				if _, err := writeAny(ctx, st[2][e], c.DBs[e].Type, q%3, 3, cnt); err != nil {
+					return fail("action %d: author write failed: %v", ai, err)
+				}
+				cnt++
+			}
+			stuck := map[string]bool{}
+			have0 := hashSetOf(st[0][e])
+			var all []ipfslog.Entry
+			for _, en := range st[2][e].OpLog().GetEntries().Slice() {
+				if !have0[en.GetHash().String()] {
+					stuck[en.GetHash().String()] = true
+					all = append(all, en)
+				}
+			}
+			wantE := world.HashSet(st[2][e])
+			p0 := w.Peers[0]
+			p0.SetGateFor(func(c cid.Cid) bool { return stuck[c.String()] })
+			hs, err := cloneHeads(all)
+			if err != nil {
+				p0.SetGate(false)
+				return fail("harness: %v", err)
+			}
+			if err := st[0][e].Sync(ctx, hs); err != nil {
+				p0.SetGate(false)
+				return fail("action %d: Sync: %v", ai, err)
+			}
+			world.WaitFor(func() bool { return len(p0.Parked()) >= 32 }, 2*time.Second)
+			nParked := len(p0.Parked())
+			for k := 0; k < a.N; k++ {
+				if _, err := writeAny(ctx, st[2][d], c.DBs[d].Type, 2+k%2, 3, cnt); err != nil {
+					p0.SetGate(false)
+					return fail("action %d: author write failed: %v", ai, err)
+				}
+				cnt++
+			}
+			heads, err := cloneHeads(world.Heads(st[2][d]))
+			if err != nil {
+				p0.SetGate(false)
+				return fail("harness: %v", err)
+			}
+			want := world.HashSet(st[2][d])
+			if err := st[0][d].Sync(ctx, heads); err != nil {
+				p0.SetGate(false)
+				return fail("action %d: Sync: %v", ai, err)
+			}
+			arrived := func() bool {
+				have := hashSetOf(st[0][d])
+				for _, h := range want {
+					if !have[h] {
+						return false
+					}
+				}
+				return true
+			}
+			// decided by state, not by a deadline: database d is reported only if, for 3 s on end, it has work
+			// queued, no fetch of its own in flight, and none of its blocks is among the parked ones
+			deadline := time.Now().Add(claimTimeout)
+			var idleSince time.Time
+			verdict := ""
+			for !arrived() {
+				stD := world.Stats(st[0][d])
+				if stD.Queued > 0 && stD.Fetching == 0 {
+					if idleSince.IsZero() {
+						idleSince = time.Now()
+					}
+					if time.Since(idleSince) > 3*time.Second {
+						verdict = fmt.Sprintf("database %d has %d fetches queued and none in flight while database %d has %d fetches in flight that do not complete", d, stD.Queued, e, nParked)
+						break
+					}
+				} else {
+					idleSince = time.Time{}
+				}
+				if time.Now().After(deadline) {
+					verdict = "inconclusive"
+					break
+				}
+				time.Sleep(2 * time.Millisecond)
+			}
+			p0.SetGate(false)
+			if verdict == "inconclusive" {
+				o.Inconclusive = true
+				return o
+			}
+			if verdict != "" {
+				return fail("action %d: %s", ai, verdict)
+			}
+			if nParked >= 32 {
+				o.Labels = append(o.Labels, "other-db-stalled-with>=32-fetches")
+			}
+			err = w.WaitClaim("the stalled database receives its entries once its blocks are served", func() bool {
+				have := hashSetOf(st[0][e])
+				for _, h := range wantE {
+					if !have[h] {
+						return false
+					}
+				}
+				return true
+			}, live, nil, claimTimeout)
+			if err != nil {
+				if err == world.ErrInconclusive {
+					o.Inconclusive = true
+					return o
+				}
+				return fail("action %d: %v", ai, err)
 			}
 		case "load":
 			if err := st[0][d].Load(ctx, -1); err != nil {
